@@ -23,10 +23,11 @@ from mc import x_tapes as XT
 PROPERTY = "C40"
 LEVEL = "model_checking"
 TECHNIQUE = "explicit-state BFS over copy/bind/set-trainable/expand/wire-map histories of real tapes vs a list model"
-LEVEL_TEXT = ("Part A: every start tape (all words of length <=2 (thorough 3) over 17 operator letters x 5 measurement lists x EVERY "
-              "trainable subset) x every single event of the full menu (all index subsets for bind / copy(trainable_params) / setter, all "
-              "reversed pairs, 4 expansion routes). Part B: BFS to depth 2 (a few starts depth 3; thorough: depth 3 everywhere) over a "
-              "20-event menu from curated starts; every object of a history is compared with the model after every event.")
+LEVEL_TEXT = ("Part A: every start tape (18 single operator letters x 2 (thorough 5) measurement lists, all pairs over 8 (thorough 18) "
+              "letters, thorough: all triples over 6 letters; EVERY trainable subset for <=4 parameters, 6 patterns beyond) x every single "
+              "event of the full menu (all index subsets for bind / copy(trainable_params) / setter, all reversed pairs, 4 expansion "
+              "routes). Part B: BFS over a 20-event menu from 8 curated starts, depth 3 for 1 (thorough 4) of them and depth 2 for the "
+              "rest; every object of a history is compared with the model after every event.")
 LEVEL_NOTE = ("Model = Python lists (values, requires_grad flags, trainable indices). Expansion oracle: a decomposed parameter is trainable "
               "iff its value moves when a trainable original parameter is perturbed (value dependence, not requires_grad). Plain "
               "qp.transforms.decompose documents that trainable_params is recomputed, so there trainability is read from the values "
@@ -41,6 +42,7 @@ RULE = ("one case = one BFS from one start tape; states = distinct (object list)
 OPS_A = ["H", "CNOT", "RX", "Rot", "CRot", "U3", "adjRY", "ctrlRot", "powRX", "exp", "prod", "adjprod", "angle", "bel", "sel",
          "MultiRZ", "PauliRot", "cond"]
 OPS_QUICK2 = ["H", "RX", "Rot", "adjRY", "exp", "prod", "angle", "cond"]  # quick tier: length-2 words over these only
+OPS_THOROUGH3 = ["RX", "Rot", "adjRY", "prod", "angle", "cond"]
 X_KINDS = ["ps", "fd", "mt", "dec"]
 DEC_SET = ["RX", "RY", "RZ", "CNOT", "PhaseShift", "GlobalPhase", "Hadamard", "PauliX"]
 
@@ -470,16 +472,19 @@ def run(ctx):
     meas_a = ["Z", "ham"] if ctx.quick else ["Z", "ham", "sum", "herm", "zham"]
     n_a = 0
     for w in words(OPS_A, maxlen, 1):
-        if ctx.quick and len(w) == 2 and not set(w) <= set(OPS_QUICK2):
-            continue
-        if len(w) == 3 and not (set(w) & {"Rot", "prod", "angle", "CRot", "sel"} and len(set(w)) == 3):
-            continue  # thorough length-3 words: distinct letters containing a multi-parameter / template operator
+        small = set(w) <= set(OPS_QUICK2)
+        if ctx.quick and len(w) == 2 and not small:
+            continue  # quick: length-2 words over OPS_QUICK2 only
+        if len(w) == 3 and not set(w) <= set(OPS_THOROUGH3):
+            continue  # thorough: length-3 words over OPS_THOROUGH3 only
         for mi, m in enumerate(meas_a):
-            if len(w) >= 2 and mi >= (1 if ctx.quick else 3):
+            if len(w) == 2 and (mi >= 2 or (mi == 1 and (ctx.quick or not small))):
+                continue  # pairs: Z always, ham for the small alphabet (thorough)
+            if len(w) == 3 and mi >= 1:
                 continue
             kinds, _ = XT.kinds_of(w, m)
             p = len(kinds)
-            tps = all_tp(p) if p <= (4 if ctx.quick else 5) else XT_family(p)
+            tps = all_tp(p) if p <= 4 else XT_family(p)
             lab = ["std", "mix", "off"][(len(w) + mi + p) % 3]
             cls = "qt" if (p + len(w)) % 2 else "qs"
             for tp in tps:
@@ -489,7 +494,7 @@ def run(ctx):
     curated = [(["Rot"], "Z", "mix", "qt", [1]), (["RX", "prod"], "ham", "mix", "qs", [1, 3]), (["angle", "U3"], "Z", "off", "qt", [0, 2]),
                (["adjprod", "RX"], "sum", "mix", "qt", [1, 2]), (["sel"], "Z", "std", "qs", [0]), (["CRot", "H", "exp"], "zham", "mix", "qt", [0, 2, 3, 5]),
                (["cond", "Rot"], "Z", "mix", "qs", [0, 2]), (["ctrlRot", "bel"], "herm", "off", "qt", [1, 3])]
-    deep = 1 if ctx.quick else len(curated)
+    deep = 1 if ctx.quick else 4
     for i, (w, m, lab, cls, tp) in enumerate(curated):
         jobs.append({"start": {"w": w, "m": m, "lab": lab, "cls": cls, "tp": tp}, "depth": 3 if i < deep else 2, "menu": "small", "part": "B"})
     ctx.per_axis["partA_starts"] = n_a
